@@ -6,7 +6,7 @@ claim("C01", "lockset + value-provenance (SSA access paths) + channel typestate"
       "enqueued ID and the newID() result are one SSA value; the response copied to a client is the one received on that "
       "activation's own unbuffered channel (single receive site, not in a loop); the agent-facing endpoints use the request ID "
       "of their own call; (backend ID, request ID) travel in the right parameter roles from the pending list to the upload "
-      "headers. no per-request closure, goroutine-in-loop or pool shares scratch memory or loop variables between activations; the App Engine proxy's GET response cache uses one injective key of (user, URL). session numbers are never given back; App Engine blob parts keep their order; the stand-alone proxy forces chunked framing so one request's response cannot be cut short into the next; an interim 1xx never latches a writer and a superseded upload attempt cannot take bytes of the retry (shared with C03.X, C06.X). Not decided: interleavings inside net/http, ID collision probability, payload bytes.")
+      "headers. no per-request closure, goroutine-in-loop or pool shares scratch memory or loop variables between activations; the App Engine proxy's GET response cache uses one injective key of (user, URL). session numbers are never given back; App Engine blob parts keep their order; the stand-alone proxy forces chunked framing so one request's response cannot be cut short into the next; an interim 1xx never latches a writer and a superseded upload attempt cannot take bytes of the retry (shared with C03.X, C06.X). no append builds on a slice reachable from a value shared between requests; session-table keys come from the atomic counter on every path. Not decided: interleavings inside net/http, ID collision probability, payload bytes.")
 
 claim("C02", "who-may-write table over resolved mutation sites + sibling tables + construction-site checks",
       "Byte identity through net/http is not decided. Decides that nothing in this repository's code on the request path alters "
@@ -14,7 +14,7 @@ claim("C02", "who-may-write table over resolved mutation sites + sibling tables 
       "*http.Request in the proxy's client path and the agent's handler chain is enumerated), that both hop-by-hop tables equal "
       "the RFC 7230 set, that the backend-facing proxy is httputil.NewSingleHostReverseProxy of a Scheme+Host URL without "
       "Director/Rewrite override, that the request object stored, serialised (Request.Write), parsed (private bufio.Reader) and "
-      "served is one chain of custody, that the fetched reply body stays open until the request was forwarded, that no pooled buffers carry request bytes, that no fetch helper defers the cancel of the context its returned response still needs, that the agent never reads the body of the request it forwards, that the live value slices of request header fields are not sorted or overwritten in place, and that no ServeMux/StripPrefix/TimeoutHandler sits on the pass-through route.")
+      "served is one chain of custody, that the fetched reply body stays open until the request was forwarded, that no pooled buffers carry request bytes, that no fetch helper defers the cancel of the context its returned response still needs, that the agent never reads the body of the request it forwards, that the live value slices of request header fields are not sorted or overwritten in place (in any function of package agent), and that no ServeMux/StripPrefix/TimeoutHandler sits on the pass-through route.")
 
 claim("C03", "ownership-transfer rule + taint (tokeniser as sanitiser) + partial evaluation of status comparisons + dominance",
       "Byte identity through Response.Write/ReadResponse is not decided. Decides the repository-specific shapes the statement's "
@@ -29,7 +29,7 @@ claim("C04", "dominance / must-pass-through + confinement (escape) analysis + ca
       "dedup lookup keyed by the very list element handed to the worker and every path through that branch records the key; the "
       "LRU never leaves the polling goroutine; its window is a constant ≥ 1000; every call site on the chain worker → ReadRequest "
       "→ callback → forwardRequest → ServeHTTP is unique and outside loops; the proxy has one send site for request IDs (not in a "
-      "loop, unbuffered channel) and every received ID is appended to the returned reply; the proxy's http.Server arms no read/write deadline. Not decided: retries inside "
+      "loop, unbuffered channel) and every received ID is appended to the returned reply; the proxy's http.Server arms no read/write deadline. the agent hands every listed ID on (the parsed list is returned whole); Not decided: retries inside "
       "ReverseProxy/Transport, LRU eviction order.")
 
 claim("C05", "deny-list over the static call closure of the response path + structural write-through / single-read rules",
@@ -38,7 +38,7 @@ claim("C05", "deny-list over the static call closure of the response path + stru
       "closure of the path's entry points; every Write forwards its own slice with one underlying Write outside loops; every "
       "upload-path Reader does one underlying Read per call outside loops; the serialiser does not wrap the body it writes; the "
       "two io.Pipes are wired as designed; chunked framing is forced; FlushInterval is negative or ≤ 1 s; the HTML splice does one "
-      "bounded Read; the response is published from WriteHeader; the replay reader returns buffered bytes without first reading the source; no lock is held across a metrics RPC on the response path and the serialiser never blocks on metrics; a writer latches at most once.")
+      "bounded Read; the response is published from WriteHeader; the replay reader returns buffered bytes without first reading the source; no lock is held across a metrics RPC on the response path and the serialiser never blocks on metrics; recording a status code waits for no other goroutine; a writer latches at most once.")
 
 claim("C06", "counted-loop evaluation + must-pass-through + truth tables by partial evaluation + lockset + pairing rules",
       "Decides for every fault sequence: at most three attempts (counted loop evaluated; the request is not replayable by net/http itself: no GetBody); every path from one client.Do to the "
@@ -54,7 +54,7 @@ claim("C07", "VTA call-graph reachability + lockset + shared-state inventory + c
       "under its mutex (exclusive lock, RLock does not count for mutating accessors); every shared map / non-goroutine-safe object "
       "is guarded, per-request or read-only after construction; the dedup LRU is confined to the poller; no unchecked type "
       "assertion on per-request paths; possibly-nil messages are nil-checked across the shim channels; no close of a multi-sender "
-      "channel; published response maps are not aliased; JSON-decoded pointer elements are nil-tested; channels are closed only by their sole sender; one worker goroutine per fetched request, started without waiting for earlier ones; offsets found by searching one value only slice that value; no nil result travels with an error that was tested nil; shim sessions are forgotten only by close and failed polls; only reasoned fields of the reverse proxy are set; default 502 error handler. Not decided: panics inside dependencies.")
+      "channel; published response maps are not aliased; JSON-decoded pointer elements are nil-tested; channels are closed only by their sole sender; one worker goroutine per fetched request, started without waiting for earlier ones; offsets found by searching one value only slice that value; no nil result travels with an error that was tested nil; shim sessions are forgotten only by close and failed polls; only reasoned fields of the reverse proxy are set; default 502 error handler. the forwarder never replaces the fetched request object; each shim queue has one sending side. Not decided: panics inside dependencies.")
 
 claim("C08", "interval abstract interpretation over SSA on a complete finite partition + loop-structure rule",
       "The delay function touches its argument through one comparison and one shift, so the 64-bit argument range splits into "
@@ -77,7 +77,7 @@ claim("C10", "lockset + must-pass-through under status valuation + literal-field
       "is the session cookie literal on the no-session branch, Write cannot reach the wrapped writer before WriteHeader; 1xx does "
       "not latch; cookie literal attributes (HttpOnly, Path=/, Secure=!override, Expires=now+lifetime, name, fresh UUID); the "
       "session cookie is dropped and other client cookies kept (equality truth table), jars and cookie URL are the caller's own; the shim's open endpoint restores r.URL before the session handler runs; the backend-facing client of a session carries that session's jar only; the miss and the insertion of a session's jar happen under one hold of the cache mutex; the shim's open wrapper is the session handler of the configured cache. "
-      "Not decided: cookiejar matching, LRU eviction, expiry arithmetic.")
+      "No response header or whole response is kept across requests in package agent or agent/sessions (no replay of another client's Set-Cookie). Not decided: cookiejar matching, LRU eviction, expiry arithmetic.")
 
 claim("C11", "sibling agreement by partial evaluation + channel inventory + provenance of message fields",
       "Exactly-once/in-order over all histories is not decided. Decides the structural facts it rests on: encoder and decoder "
@@ -85,14 +85,14 @@ claim("C11", "sibling agreement by partial evaluation + channel inventory + prov
       "one producer/consumer goroutine each; the data endpoint walks the decoded slice by index synchronously and aborts on the "
       "first error; writer and reader move (Type, Data) of exactly one message / one ReadMessage result; polls return every "
       "received message in receive order; injection parses the whole message, only adds missing keys, keeps the type and falls "
-      "back to the original on error; session IDs are unique; a poll never discards messages it already took from the queue and reports an error only when the queue is closed and drained; each queue has one receiving side; the enqueueing select waits only for the queue and the connection's own end; a failed injection never returns before the enqueue.")
+      "back to the original on error; session IDs are unique; a poll never discards messages it already took from the queue and reports an error only when the queue is closed and drained; each queue has one receiving side; the enqueueing select waits only for the queue and the connection's own end; a failed injection never returns before the enqueue; clientMessages is fed from one place (no fast path beside a backlog).")
 
 claim("C12", "channel typestate + every-path-answers (must-pass-through) + status oracle + lifecycle pairing",
       "Decides for every call order and interleaving: no channel with concurrent senders is closed and closes happen once; every "
       "send reachable from an endpoint selects on the connection's done channel, receives have timer/default alternatives; every "
       "CFG path of the five endpoint handlers produces an HTTP answer with constant status in {200,400,408,500}; an unknown "
       "session leads only to 400, failed send/poll to 400, only close and a failed poll forget a session; concurrent opens get distinct IDs; a poll delivers what it received before reporting closed; reader/writer cancel the "
-      "connection context on every exit, a goroutine closes the backend socket after Done, Close() makes the writer exit (the close frame is not queued behind a test of the closed channel); session-table keys are of a comparable concrete type. Not "
+      "connection context on every exit, a goroutine closes the backend socket after Done, Close() makes the writer exit (the close frame is not queued behind a test of the closed channel); session-table keys are of a comparable concrete type. every store into the session table is keyed by the atomic increment on every path (no client-chosen IDs); recording a status code never waits for another goroutine; each queue has one sending side. Not "
       "decided: that gorilla's WriteMessage returns in bounded time on a dead peer.")
 
 claim("C13", "must-assign (definite overwrite) per URL field + who-may-dial table + mounting/dispatch dominance",
@@ -100,7 +100,7 @@ claim("C13", "must-assign (definite overwrite) per URL field + who-may-dial tabl
       "Opaque and User are each overwritten, on every path before String(), by a constant or the configured host; the shim "
       "package has one dial site whose URL is NewConnection's parameter, one NewConnection call site, no other network client, "
       "and the handshake response is never used (no redirect following); endpoints are mounted under path.Join(shimPath, const) "
-      "under a slash-terminated prefix, and non-shim requests reach the wrapped handler with the original writer and request. Not decided: DNS/proxy environment.")
+      "under a slash-terminated prefix, and non-shim requests reach the wrapped handler with the original writer and request. the open endpoint delegates its own request (Host and headers are the front end's), never one constructed from the body; Not decided: DNS/proxy environment.")
 
 claim("C14", "partial evaluation on predicate results + predicate truth tables + index/slice agreement",
       "The splice arithmetic on run-time strings is not decided. Decides that every alteration is gated: the banner writer is "
@@ -108,20 +108,20 @@ claim("C14", "partial evaluation on predicate results + predicate truth tables +
       "the status and lets the body pass; framed requests get the original body; frameable ones get the frame and the uncacheable / "
       "sameorigin headers; Write forwards iff writeBytes; 1xx does not latch; predicate truth tables (only GET, only 200, not "
       "attachment, content-type constants); the shim touches nothing (not even the body) unless Content-Type contains html, the new "
-      "body is prefix+original (the only body installed; the original is not closed on a served path), and the script is inserted by Replace(…, 1) or by index and slice on the same string; rendered pages live in call-owned (not pooled or captured) buffers and the backend-facing proxy gets no Director/Transport override for injection.")
+      "body is prefix+original (the only body installed; the original is not closed on a served path), and the script is inserted by Replace(…, 1) or by index and slice on the same string; the request URL is never rewritten in place in front of the banner, no append builds on a slice shared between requests; rendered pages live in call-owned (not pooled or captured) buffers and the backend-facing proxy gets no Director/Transport override for injection.")
 
 claim("C15", "sibling agreement (encoder/decoder) by partial evaluation + buffer-discipline provenance + pairing",
       "Byte-stream integrity for all sizes is not decided. Decides the codec/structure it rests on: Write sends one TextMessage "
       "carrying hex of its own argument and reports len(argument); Read accepts exactly that type, decodes the payload it just read, "
       "refills only when its buffer is empty and keeps the remainder from the returned count; no websocket read limit exists while "
       "Write is unsegmented; each bridging function copies a→b and b→a over the same pair with matching WaitGroup counts; non-bridge "
-      "requests reach the pass-through handler with the original (w, r) and are never upgraded; both ends use one StreamingPath constant; goroutines started per accepted connection capture only per-iteration variables; the pass-through proxy is the stock single-host proxy; one websocket writer per connection; the dial context is not retained.")
+      "requests reach the pass-through handler with the original (w, r) and are never upgraded; both ends use one StreamingPath constant; the frontend dials only in the goroutine of an accepted client; goroutines started per accepted connection capture only per-iteration variables; the pass-through proxy is the stock single-host proxy; one websocket writer per connection; the dial context is not retained.")
 
 claim("C16", "pairing: copy-loop completion must reach a close of the pair; acquisition/release pairing",
       "Timing is not decided. Decides the structural obstacle the property names: in each bridging function, when either "
       "direction's io.Copy returns that goroutine closes the connections of the pair (directly or via a closure that does), "
       "independently of its sibling — an expired deadline or a conditional close is not accepted — and every acquired connection "
-      "(Upgrade, Dial, Accept, DialWebsocket) has a deferred Close; no SO_LINGER≥0 is armed and no raw descriptor is taken from a bridge socket; an acquisition is followed by its deferred Close on every path; a wrapper's Close never takes a lock that is held across blocking I/O; every websocket dial of the bridge is bounded (DefaultDialer, positive HandshakeTimeout or deadline context); a wrapper's Close writes nothing unbounded to the websocket.")
+      "(Upgrade, Dial, Accept, DialWebsocket) has a deferred Close; no SO_LINGER≥0 is armed and no raw descriptor is taken from a bridge socket; an acquisition is followed by its deferred Close on every path; a wrapper's Close never takes a lock that is held across blocking I/O; every websocket dial of the bridge is bounded (DefaultDialer, positive HandshakeTimeout or deadline context); the connection types define no ReadFrom/WriteTo of their own (io.Copy returns only when its bytes were written); a wrapper's Close writes nothing unbounded to the websocket.")
 
 claim("C17", "dominance + provenance (validated value) + sibling agreement of Store implementations + partial evaluation",
       "Identity values come from App Engine. Decides for all callers and orders: in each agent endpoint checkBackendID dominates "
@@ -136,7 +136,7 @@ claim("C18", "dominance (liveness gate) + truth tables by partial evaluation + p
       "passed hasBackend(<same ID>, 5 min); hasBackend is 'seen and Since < timeout' on boundary values; the shared lookup runs only "
       "when the user has no match; the lookup is keyed by the decoded r.URL.Path; failure is 404 before any store write; a successful registerBackendAsSeen has written the tracker with time.Now(); the store's list call returns only after it ran, under the caller's context; the selection function is pure and deterministic, updates "
       "its best candidate only under HasPrefix(path, p) and only when there is none yet or len(p) > len(best), records ID and prefix "
-      "of the same backend, and errors exactly when there is no match; neither loop is left early (every prefix of every backend is compared); no cache or memo sits in front of the routing decision.")
+      "of the same backend, and errors exactly when there is no match; neither loop is left early (every prefix of every backend is compared); no cache or memo sits in front of the routing decision; the store call that records a backend as seen is made by the agent-facing wait loop only.")
 
 claim("C19", "provenance of IDs and bytes + sibling key agreement + path-sensitive send counting vs. channel capacity + pairing",
       "Blob arithmetic at the 1 MB boundaries is not decided. Decides: the client path stores and awaits under the same (backend, "
